@@ -24,6 +24,7 @@ ASSUMPTIONS = ["vmon/tt.py truth tables (self-checked)", "reference axiom genera
                "gadgets are not compared with an independent specification)"]
 REQUIRED = ["exact_cases", "unsatisfiable_cases", "satisfiable_cases", "structural_comparisons", "contradictions_confirmed",
             "planted_orderings_satisfiable", "planted_orderings_unsatisfiable", "large_structural_cases", "opb_cases",
+            "sampled_cases", "sampled_true_references", "sampled_false_references",
             "cnf_cases"] + ["family_" + f for f in ("op", "gop", "peb", "stone", "sparsestone", "cpls", "pitfall", "ram", "vdw", "ptn")]
 CASE_TIMEOUT = {"quick": 600, "thorough": 3600}
 
@@ -706,6 +707,8 @@ def workload(tier, seed):
         if not quick:
             yield "ptn", {"cls": cls, "Ns": [20, 21, 22]}
         yield "large", {"cls": cls}
+        for i in range(1 if quick else 12):
+            yield "sampled", {"cls": cls, "rseed": seed * 100 + i}
         seeds = [seed * 100 + i for i in range(3 if quick else 20)]
         for (v, d) in ((2, 1), (4, 1)):
             for ny in (2, 3):
@@ -716,3 +719,171 @@ def workload(tier, seed):
                                       "seeds": seeds[:2] if exact else seeds, "exact": exact}
         for (v, d) in ((3, 2), (4, 3), (6, 3)):
             yield "pitfall", {"cls": cls, "v": v, "d": d, "ny": 4, "nz": 3, "k": 4, "seeds": seeds, "exact": False}
+
+
+# ------------------------------------------------------------------ beyond the cap: sampled assignments
+def case_sampled(ctx, cls, rseed):
+    """Ramsey-type formulas and orderings at sizes where the truth table is out of reach: the formula is
+    evaluated on random / constructed assignments against a direct predicate."""
+    from ..refmodels.names import eval_formula
+    g = gens()
+    r = ctx.rng("c03sampled", cls, rseed)
+
+    def compare(fam, desc, F, pool, pred, key):
+        nt = nf = 0
+        for t in pool:
+            exp, got = pred(t), eval_formula(F, t)
+            ctx.count("sampled_assignments")
+            nt, nf = nt + bool(exp), nf + (not exp)
+            if exp != got:
+                ctx.violation("%s:sampled:%s" % (fam, "satisfied-by-non-object" if got else "object-not-a-model"),
+                              "%s: an assignment that %s the documented condition %s the formula; true variables %s"
+                              % (desc, "meets" if exp else "violates", "satisfies" if got else "falsifies",
+                                 sorted(S.name_of(F, v) for v in t)[:30]))
+                break
+        ctx.count("sampled_cases")
+        ctx.count("sampled_true_references", nt)
+        ctx.count("sampled_false_references", nf)
+        ctx.judged(key, sample={"family": fam, "case": desc, "mode": "sampled", "assignments_true": nt, "assignments_false": nf})
+    # van der Waerden, two colours: random colourings and locally repaired ones
+    for (N, k1, k2) in ((20, 3, 4), (30, 4, 4), (17, 3, 5), (12, 2, 6)):
+        desc = "VanDerWaerden(%d,%d,%d)[%s]" % (N, k1, k2, cls)
+        F = make(ctx, "vdw", cls, desc, g.VanDerWaerden, N, k1, k2)
+        if F is None:
+            continue
+        at = S.decode(ctx, "vdw", desc, F)
+        if at is None:
+            continue
+        xs = at.get("x_{#}", {})
+        aps = [progressions(N, k1), progressions(N, k2)]
+
+        def bad_aps(col):
+            return [(c, ap) for c in (0, 1) for ap in aps[c] if all(col[i - 1] == c for i in ap)]
+        pool = []
+        for _ in range(30):
+            col = [r.randrange(2) for _ in range(N)]
+            pool.append(list(col))
+            for _ in range(200):                  # min-conflicts repair towards an avoiding colouring
+                b = bad_aps(col)
+                if not b:
+                    break
+                c, ap = r.choice(b)
+                col[r.choice(ap) - 1] ^= 1
+            pool.append(list(col))
+        pred = lambda t: not bad_aps([1 if xs[(i,)] in t else 0 for i in range(1, N + 1)])
+        compare("vdw", desc, F, [{xs[(i,)] for i in range(1, N + 1) if col[i - 1]} for col in pool], pred,
+                ("vdw-large", N, k1, k2, cls, rseed))
+    # van der Waerden, three colours
+    for (N, K) in ((14, (3, 3, 3)), (10, (2, 3, 4))):
+        desc = "VanDerWaerden(%d,%s)[%s]" % (N, ",".join(map(str, K)), cls)
+        F = make(ctx, "vdw", cls, desc, g.VanDerWaerden, N, *K)
+        if F is None:
+            continue
+        at = S.decode(ctx, "vdw", desc, F)
+        if at is None:
+            continue
+        xs = at.get("x_{#,#}", {})
+        aps = [progressions(N, k) for k in K]
+        pool = []
+        for _ in range(40):
+            col = [r.randrange(3) for _ in range(N)]
+            for _ in range(150):
+                b = [(c, ap) for c in range(3) for ap in aps[c] if all(col[i - 1] == c for i in ap)]
+                if not b:
+                    break
+                c, ap = r.choice(b)
+                col[r.choice(ap) - 1] = r.choice([x for x in range(3) if x != c])
+            t = {xs[(i, col[i - 1] + 1)] for i in range(1, N + 1)}
+            pool.append(t)
+            pool.append(t ^ {r.choice(list(xs.values()))})          # a number with 0 or 2 colours
+
+        def pred3(t, xs=xs, N=N, aps=aps):
+            col = []
+            for i in range(1, N + 1):
+                cs = [c for c in range(3) if xs[(i, c + 1)] in t]
+                if len(cs) != 1:
+                    return False
+                col.append(cs[0])
+            return not any(all(col[i - 1] == c for i in ap) for c in range(3) for ap in aps[c])
+        compare("vdw", desc, F, pool, pred3, ("vdw3-large", N, K, cls, rseed))
+    # Ramsey numbers: random graphs and repaired ones
+    for (s, k, N) in ((3, 3, 8), (3, 4, 8), (4, 4, 10), (2, 5, 7)):
+        desc = "RamseyNumber(%d,%d,%d)[%s]" % (s, k, N, cls)
+        F = make(ctx, "ram", cls, desc, g.RamseyNumber, s, k, N)
+        if F is None:
+            continue
+        at = S.decode(ctx, "ram", desc, F)
+        if at is None:
+            continue
+        e = at.get("e_{#,#}", {})
+        P = S.pairs(N)
+        ssets = list(itertools.combinations(range(1, N + 1), s))
+        ksets = list(itertools.combinations(range(1, N + 1), k))
+
+        def conflicts(Eset):
+            out = [("i", c) for c in ssets if all(pp not in Eset for pp in itertools.combinations(c, 2))]
+            out += [("c", c) for c in ksets if all(pp in Eset for pp in itertools.combinations(c, 2))]
+            return out
+        pool = []
+        for _ in range(12):
+            Eset = {pp for pp in P if r.random() < 0.5}
+            pool.append(set(Eset))
+            for _ in range(60):
+                b = conflicts(Eset)
+                if not b:
+                    break
+                kind, c = r.choice(b)
+                pr = list(itertools.combinations(c, 2))
+                if not pr:
+                    break
+                pp = r.choice(pr)
+                if kind == "i":
+                    Eset.add(pp)
+                else:
+                    Eset.discard(pp)
+            pool.append(set(Eset))
+        pred = lambda t, e=e, P=P: not conflicts({pp for pp in P if e[pp] in t})
+        compare("ram", desc, F, [{e[pp] for pp in Es} for Es in pool], pred, ("ram-large", s, k, N, cls, rseed))
+    # ordering principles at 8-10 elements: total orders (every one falsifies the unplanted formula; the planted
+    # one is satisfied exactly by the orders whose only minimum is the last element's allowed position)
+    import cnfgen.graphs as cg
+    for N in (8, 10):
+        E = [e for e in S.pairs(N) if r.random() < 0.5]
+        G = cg.Graph(N)
+        for ed in E:
+            G.add_edge(*ed)
+        adj = {u: set() for u in range(1, N + 1)}
+        for u, v in E:
+            adj[u].add(v)
+            adj[v].add(u)
+        for vname, kw in VARIANTS:
+            for plant in (False, True):
+                desc = "GraphOrderingPrinciple(random graph %d vertices %d edges,%s,plant=%s)[%s]" % (N, len(E), vname, plant, cls)
+                F = make(ctx, "gop", cls, desc, g.GraphOrderingPrinciple, G, plant=plant, **kw)
+                if F is None:
+                    continue
+                at = S.decode(ctx, "gop", desc, F)
+                if at is None:
+                    continue
+                xs = at.get("x_{#,#}", {})
+                pool, exp = [], {}
+                for i in range(30):
+                    perm = list(range(1, N + 1))
+                    r.shuffle(perm)
+                    if plant and i % 2 == 0:
+                        # a BFS-like order from vertex N: every other vertex gets a smaller neighbour when the graph is connected
+                        seen, order, frontier = {N}, [N], [N]
+                        while frontier:
+                            u = frontier.pop(r.randrange(len(frontier)))
+                            for w in sorted(adj[u]):
+                                if w not in seen:
+                                    seen.add(w)
+                                    order.append(w)
+                                    frontier.append(w)
+                        perm = order + [v for v in perm if v not in seen]
+                    pos = {v: j for j, v in enumerate(perm)}
+                    t = frozenset(var for (a, b), var in xs.items() if pos[a] < pos[b])
+                    ok = all(any(pos[u] < pos[v] for u in adj[v]) for v in range(1, N + 1) if not (plant and v == N))
+                    pool.append(set(t))
+                    exp[t] = ok
+                compare("gop", desc, F, pool, lambda t, exp=exp: exp[frozenset(t)], ("gop-large", N, tuple(E), vname, plant, cls, rseed))
